@@ -132,6 +132,9 @@ impl QH<'_> {
     }
 }
 
+// every field optional: an empty query / form body / `{}` is a complete value
+shape!(QI { o: Option<String>, p: Option<u32> });
+
 const Q_SHAPES: &[&[(&str, Kind)]] = &[
     &[("a", Kind::Str)],
     &[("id", Kind::U64), ("name", Kind::Str), ("ok", Kind::Bool)],
@@ -141,6 +144,7 @@ const Q_SHAPES: &[&[(&str, Kind)]] = &[
     &[("a", Kind::U8), ("b", Kind::I8), ("c", Kind::U16), ("d", Kind::I16), ("e", Kind::F32)],
     &[("nums", Kind::VecU16), ("s", Kind::Str), ("t", Kind::Str)],
     &[("r", Kind::Str), ("n", Kind::I64)],
+    &[("o", Kind::OptStr), ("p", Kind::OptU32)],
 ];
 const Q_BORROWING: usize = 7;
 
@@ -193,9 +197,14 @@ fn pct(b: u8, salt: &mut u64) -> String {
 /// Percent-encode for a path segment: everything that is not unreserved, plus a random extra set.
 fn enc_path(s: &str, salt: &mut u64) -> String {
     let mut out = String::new();
-    for b in s.bytes() {
+    let bytes = s.as_bytes();
+    for (i, b) in bytes.iter().copied().enumerate() {
         if is_unreserved(b) && next(salt) % 7 != 0 {
             out.push(b as char);
+        } else if b == b'%' && !bytes.get(i + 1).is_some_and(|n| n.is_ascii_hexdigit()) && next(salt) % 3 == 0 {
+            // a stray `%` (not followed by a hex digit, whatever the next byte is encoded as) may be
+            // sent as it is: percent-decoding leaves it alone. Clients do send `/deals/100%/..`.
+            out.push('%');
         } else {
             out.push_str(&pct(b, salt));
         }
@@ -354,7 +363,8 @@ fn extract_query(shape: usize, h: &RequestHead) -> Extracted {
         4 => QueryParams::<QE>::extract(h).map(|p| p.0.texts()).map_err(cls),
         5 => QueryParams::<QF>::extract(h).map(|p| p.0.texts()).map_err(cls),
         6 => QueryParams::<QG>::extract(h).map(|p| p.0.texts()).map_err(cls),
-        _ => QueryParams::<QH>::extract(h).map(|p| p.0.texts()).map_err(cls),
+        7 => QueryParams::<QH>::extract(h).map(|p| p.0.texts()).map_err(cls),
+        _ => QueryParams::<QI>::extract(h).map(|p| p.0.texts()).map_err(cls),
     }
 }
 
@@ -379,7 +389,8 @@ fn extract_form(shape: usize, h: &RequestHead, b: &BufferedBody) -> Extracted {
         4 => UrlEncodedBody::<QE>::extract(h, b).map(|p| p.0.texts()).map_err(cls),
         5 => UrlEncodedBody::<QF>::extract(h, b).map(|p| p.0.texts()).map_err(cls),
         6 => UrlEncodedBody::<QG>::extract(h, b).map(|p| p.0.texts()).map_err(cls),
-        _ => UrlEncodedBody::<QH>::extract(h, b).map(|p| p.0.texts()).map_err(cls),
+        7 => UrlEncodedBody::<QH>::extract(h, b).map(|p| p.0.texts()).map_err(cls),
+        _ => UrlEncodedBody::<QI>::extract(h, b).map(|p| p.0.texts()).map_err(cls),
     }
 }
 
@@ -400,7 +411,8 @@ fn extract_json(shape: usize, h: &RequestHead, b: &BufferedBody) -> Extracted {
         4 => JsonBody::<QE>::extract(h, b).map(|p| p.0.texts()).map_err(cls),
         5 => JsonBody::<QF>::extract(h, b).map(|p| p.0.texts()).map_err(cls),
         6 => JsonBody::<QG>::extract(h, b).map(|p| p.0.texts()).map_err(cls),
-        _ => JsonBody::<QH>::extract(h, b).map(|p| p.0.texts()).map_err(cls),
+        7 => JsonBody::<QH>::extract(h, b).map(|p| p.0.texts()).map_err(cls),
+        _ => JsonBody::<QI>::extract(h, b).map(|p| p.0.texts()).map_err(cls),
     }
 }
 
@@ -835,7 +847,8 @@ pub fn case_strategy() -> impl Strategy<Value = Case> {
         2 => Just(Channel::Form),
         2 => Just(Channel::Json)
     ];
-    (channel, 0u8..8).prop_flat_map(|(channel, shape)| {
+    (channel, 0u8..72).prop_flat_map(|(channel, raw)| {
+        let shape = raw % if channel == Channel::Path { PATH_SHAPES.len() as u8 } else { Q_SHAPES.len() as u8 };
         let fields = match channel {
             Channel::Path => PATH_SHAPES[shape as usize],
             _ => Q_SHAPES[shape as usize],
